@@ -499,8 +499,10 @@ static void add_directive(Bld &b, std::string &fmt, std::vector<FmtArg> &args, b
     case 6: case 7: { // double
         static const char *d[] = {"%f", "%.2f", "%10.3f", "%e", "%g", "%G", "%a", "%A", "%.0f", "%#.3g", "%E", "%+.1f", "%012.4f", "%.10e",
                                   // 14.. : more flag / width / precision combinations (same value restrictions as their base forms below)
-                                  "%.12f", "%-12.3f|", "%#.0f", "% f", "%+e", "% e", "%-15e|", "%015e", "%.0e", "%-10a|", "%.2a", "%.4g", "%-12g|", "%08.3g"}; // no sign flags with %g: the sign is emitted from an indeterminate byte (C11 defect)
-        int di = r.below(28);
+                                  "%.12f", "%-12.3f|", "%#.0f", "% f", "%+e", "% e", "%-15e|", "%015e", "%.0e", "%-10a|", "%.2a", "%.4g", "%-12g|", "%08.3g", // no sign flags with %g: the sign is emitted from an indeterminate byte (C11 defect)
+                                  // 28.. : hex float with the (permitted, meaningless) l modifier
+                                  "%la", "%lA", "%.3la", "%-14la|"};
+        int di = r.below(32);
         fmt += d[di];
         double dv = some_double(r);
         bool gform = di == 4 || di == 5 || di == 9 || di >= 25;
@@ -947,6 +949,7 @@ static bool gen_file(Bld &b, bool viol, bool faults) {
     if (faults && r.chance(1, 3)) { b.op.f.sys_k = 1 + r.below(r.chance(1, 2) ? 2 : 6); b.op.f.sys_errno = pick(r, {12 /*ENOMEM*/, 24 /*EMFILE*/, 13 /*EACCES*/, 5 /*EIO*/, 28 /*ENOSPC*/}); }
     if (fn == FN_tmpfile_s) { b.op.a[0] = (viol && r.chance(1, 3)) ? -1 : 0; return b.commit(); }
     b.op.a[0] = r.chance(3, 4) ? 0 : r.below(4);
+    if (viol && r.chance(1, 3)) b.op.a[0] = 1; // a path that does not exist: the libc call fails, which is reported through the handler
     b.op.a[1] = r.chance(3, 4) ? r.below(2) : r.below(5);
     if (!viol) { if (b.op.a[0] == 2) b.op.a[0] = 0; if (b.op.a[1] == 2 || b.op.a[1] == 3) b.op.a[1] = 0; }
     b.op.a[2] = (viol && r.chance(1, 6)) ? -1 : 0;
@@ -971,7 +974,7 @@ bool gen_alloc_op(Rng &r, TaskPlan &tp, uint32_t *top, int locale) {
             add_directive(b, fmt, args, false, stream, want);
             if (want == 6 && args.size() && args.back().cls == 1) { // force %a for doubles (the only double path that allocates)
                 fmt.resize(before);
-                fmt += r.chance(1, 3) ? "%a" : r.chance(1, 2) ? "%.3A" : long_directive(r, "", "aA");
+                fmt += r.chance(1, 4) ? "%a" : r.chance(1, 3) ? "%.3A" : r.chance(1, 2) ? long_directive(r, "", "aA") : long_directive(r, "l", "aA"); // (l has no effect on a following a)
             }
             fmt += i + 1 < nd || r.chance(4, 5) ? rstr(r, 1 + r.below(4), 4) : "";
         }
